@@ -34,6 +34,7 @@ RULE = ('hand-built dyadic hierarchies (levels 2-4, n0<=5, entries in {0,+-1/2,+
         'Non-trivial: >= 2 levels; distinct = distinct (hierarchy, cycle, cpl, k, vectors).')
 RULE += (' '
          'Also: 2x2 block smoothers; the operator handed to a spy accelerator by solve(accel=..., cycle=...) equals M of that cycle; a guess within the default tolerance is still updated by one cycle.')
+THOROUGH_ROUNDS = 4
 TRUSTED = ['SciPy sparse @ dense (exact on dyadic data)', 'NumPy dense linear algebra on the oracle side']
 PARTIAL = ['instance gap between abstract groups and sized rational lists (covered by correspondence only)']
 NOT_COVERED = ['AMLI cycle, Krylov smoothers and coarse solvers (excluded by the property)']
